@@ -110,6 +110,8 @@ def concretise(v, f, wd):
     """argv (without the tool name) and the output format in force for a vector."""
     tool = v["tool"]
     default_fmt = "opb" if tool == "pbgen" else "dimacs"
+    if v["dev"] == "graph_spec_grid":
+        return [v["name"]] + list(v["valid"]), default_fmt
     if v["dev"] == "build_refusal":
         sel = v["fmt"]
         kind, _, what = sel.partition("_")
@@ -247,7 +249,9 @@ def main(argv=None):
     if ck.quick:
         must = [x for x in vectors if x["expect"] != "any"]
         rest = [x for x in vectors if x["expect"] == "any"]
-        keep = must[::2] + ck.rng.sample(rest, 900)
+        grid = [x for x in rest if x["v"]["dev"] == "graph_spec_grid"]
+        rest = [x for x in rest if x["v"]["dev"] != "graph_spec_grid"]
+        keep = must[::2] + ck.rng.sample(rest, 800) + ck.rng.sample(grid, 250)
         other = [x for x in vectors if x["v"]["tool"] in ("cnfshuffle", "kthlist2pebbling")]
         seen = set()
         vectors = []
